@@ -437,6 +437,25 @@ func (e *Exec) querySweep(r *Replica, m *Model, height int64, full bool, atH int
 			e.viol("C03", "did.document_differs", "did:"+d, "replica %d height %d: DID %s returns a document different from the last accepted one", r.ID, atH, d)
 			return
 		}
+		// byte strings that are NOT this identifier (and no other registered one) resolve to nothing: bytes that are not
+		// valid UTF-8 before, inside and after it, blanks, NUL, a fragment, the other letter case
+		if full || rng.Chance(0.3) {
+			mid := len(d) / 2
+			near := []string{d + "\xff", "\xc3" + d, d[:mid] + "\x80" + d[mid:], d[:mid] + "\xed\xa0\x80" + d[mid:], d + " ", " " + d, d + "\x00", d + "#key1", strings.ToUpper(d), d + "\n", "\ufeff" + d}
+			x := near[rng.Intn(len(near))]
+			if _, registered := m.Did[x]; !registered && x != d {
+				qx := n.Query(qDID, &didtypes.QueryDIDRequest{DidBase64: base64.StdEncoding.EncodeToString([]byte(x))}, height)
+				if e.qpanic(qx, "DID") {
+					return
+				}
+				e.Stats.Inc("q.did.near_miss")
+				var rx didtypes.QueryDIDResponse
+				if qx.OK() && rx.Unmarshal(qx.Value) == nil && rx.DidDocumentWithSeq != nil && rx.DidDocumentWithSeq.Document != nil && !rx.DidDocumentWithSeq.Empty() {
+					e.viol("C11", "did.query_near_miss", "did:"+d, "replica %d height %d: reading %q, which was never registered, returns a document about %s", r.ID, atH, x, rx.DidDocumentWithSeq.Document.Id)
+					return
+				}
+			}
+		}
 	}
 	e.pnftSweep(r, m, height, full, atH, rng)
 }
